@@ -56,6 +56,7 @@ func runC05(c *Ctx) {
 	c05R2Memory(c)
 	c05R2OCI(c)
 	c05R2File(c)
+	c05PooledBuffers(c)
 	c05R2Wrappers(c)
 	c05R3(c)
 	c05R4(c)
@@ -1053,6 +1054,88 @@ func c05R2Memory(c *Ctx) {
 }
 
 // c05Unspill looks through a load of a local struct that holds a single stored value.
+// c05PooledBuffers: a buffer taken from a sync.Pool and handed to a copy is given back only after its last use.  Put
+// before the copy (an un-deferred `bufPool.Put(buf)`) lets a concurrent push Get the same buffer: the bytes written to
+// the file are then not the bytes that were hashed — content that does not match its descriptor becomes visible although
+// verification passed (a schedule-dependent C05 / C12 break no test exercises).
+func c05PooledBuffers(c *Ctx) {
+	const R = "C05.R2.publish-after-verify"
+	n := 0
+	for _, pkg := range []string{"content/oci", "content/file", "internal/cas", "content"} {
+		for _, f := range c05FuncsOfPkg(c.P, pkg) {
+			for _, get := range CallsTo(f, "(*sync.Pool).Get") {
+				gv := get.Value()
+				if gv == nil {
+					continue
+				}
+				al := Aliases(gv)
+				// values derived from the buffer: type assertions, loads through the pointer, slices of it
+				der := map[ssa.Value]bool{}
+				var grow func(v ssa.Value, d int)
+				grow = func(v ssa.Value, d int) {
+					if der[v] || d > 5 || v.Referrers() == nil {
+						return
+					}
+					der[v] = true
+					for _, r := range *v.Referrers() {
+						switch u := r.(type) {
+						case *ssa.TypeAssert, *ssa.UnOp, *ssa.Slice, *ssa.ChangeType, *ssa.MakeInterface, *ssa.Extract, *ssa.Phi:
+							grow(u.(ssa.Value), d+1)
+						case *ssa.Store:
+							if a, isA := u.Addr.(*ssa.Alloc); isA && u.Val == v {
+								grow(a, d+1)
+							}
+						}
+					}
+				}
+				for a := range al {
+					grow(a, 0)
+				}
+				var puts []ssa.Instruction
+				var uses []ssa.Instruction
+				for _, call := range Calls(f, func(string) bool { return true }) {
+					isPut := CalleeName(call) == "(*sync.Pool).Put"
+					touches := false
+					for _, a := range call.Common().Args {
+						if der[a] || der[strip(a)] {
+							touches = true
+						}
+					}
+					if !touches || call == ssa.CallInstruction(get) {
+						continue
+					}
+					if isPut {
+						if _, isDefer := call.(*ssa.Defer); !isDefer {
+							puts = append(puts, call.(ssa.Instruction))
+						}
+						continue
+					}
+					if _, isDefer := call.(*ssa.Defer); !isDefer {
+						uses = append(uses, call.(ssa.Instruction))
+					}
+				}
+				if len(uses) == 0 {
+					continue
+				}
+				n++
+				bad := ""
+				for _, p := range puts {
+					for _, u := range uses {
+						if reach(p.Block(), instrIndex(p)+1, u, nil) {
+							bad = c.P.Pos(u.Pos())
+						}
+					}
+				}
+				c.Check(R, FnName(f)+"|pooled-buffer-released-after-last-use", get.Pos(), bad == "",
+					ifelse(bad == "", "the pooled buffer is given back (deferred or last) after every use", "the pooled buffer is put back before it is used at "+bad+": a concurrent operation can take and overwrite it while the copy is still writing from it"))
+			}
+		}
+	}
+	if n == 0 {
+		c.OK(R, "pooled-buffers|none", token.NoPos, "no pooled copy buffers are used")
+	}
+}
+
 func c05Unspill(v ssa.Value) ssa.Value {
 	v = strip(v)
 	if u, ok := v.(*ssa.UnOp); ok && u.Op == token.MUL {
@@ -2112,8 +2195,64 @@ func c05AddProvenance(c *Ctx, R string) {
 				}
 			}
 			c.Check(R, fname+"|recorded-digest-is-computed-over-recorded-file", call.Pos(), okP, detail)
+			// a failure while hashing must not be turned into success by the deferred cleanup (the caller would hand out a
+			// zero / stale descriptor for a file whose digest was never computed)
+			why := c05DeferKeepsError(f)
+			c.Check(R, fname+"|deferred-cleanup-keeps-error", f.Pos(), why == "", ifelse(why == "", "deferred code cannot clear an error of the hashing step", why))
+			c05DefaultOnlyWhenEmpty(c, R, f)
 		}
 	}
+}
+
+// c05DefaultOnlyWhenEmpty: the descriptor a function hands out names the caller's media type; a constant default takes
+// its place only on the edge where the caller's string is empty (`if mediaType == "" { mediaType = default }`).  Decided
+// on the phi that merges the parameter with a constant: each operand must arrive over the matching outcome of an
+// emptiness test of the parameter.
+func c05DefaultOnlyWhenEmpty(c *Ctx, R string, f *ssa.Function) {
+	AllInstrs(f, func(in ssa.Instruction) {
+		phi, ok := in.(*ssa.Phi)
+		if !ok || len(phi.Edges) != 2 {
+			return
+		}
+		var prm *ssa.Parameter
+		var pi, ki int = -1, -1
+		for i, e := range phi.Edges {
+			if p, isP := strip(e).(*ssa.Parameter); isP && p.Parent() == f {
+				prm, pi = p, i
+			}
+			if _, isS := constString(e); isS {
+				ki = i
+			}
+		}
+		if prm == nil || pi < 0 || ki < 0 {
+			return
+		}
+		// only when the merged value ends up as the MediaType of a descriptor
+		used := false
+		for _, r := range *phi.Referrers() {
+			if st, isSt := r.(*ssa.Store); isSt {
+				if fa, isFA := st.Addr.(*ssa.FieldAddr); isFA && c05IsNamedType(fa.X.Type(), "specs-go/v1", "Descriptor") && c05FieldNameOf(fa.X.Type(), fa.Field) == "MediaType" {
+					used = true
+				}
+			}
+		}
+		if !used {
+			return
+		}
+		empty, nonEmpty := c05EmptyStrEdges(f, func(v ssa.Value) bool { return strip(v) == ssa.Value(prm) })
+		arrives := func(i int, es []Edge) bool {
+			pred := phi.Block().Preds[i]
+			for _, e := range es {
+				if e.From == pred && e.To == phi.Block() {
+					return true
+				}
+			}
+			return len(es) > 0 && len(pred.Instrs) > 0 && MustPass(pred.Instrs[len(pred.Instrs)-1], newCut().Edges(es...))
+		}
+		ok2 := arrives(ki, empty) && arrives(pi, nonEmpty)
+		c.Check(R, FnName(f)+"|"+prm.Name()+"|default-only-when-empty", phi.Pos(), ok2,
+			ifelse(ok2, "the constant default replaces the caller's media type only when that is empty", "the default media type replaces a non-empty media type given by the caller (or an empty one is kept): the descriptor handed out does not name what the caller asked for"))
+	})
 }
 
 // c05WrapsValue: v is `want`, possibly converted to an interface, held in a local variable, or wrapped in a local struct
@@ -2574,6 +2713,7 @@ func c05R4(c *Ctx) {
 			continue
 		}
 		cells := c05ErrCells(f)
+		nCloseCl := 0
 		for _, cl := range Anons(f) {
 			if cl.Parent() != f {
 				continue
@@ -2587,10 +2727,12 @@ func c05R4(c *Ctx) {
 				}
 			}
 			for _, call := range CallsTo(cl, "(*os.File).Close") {
+				nCloseCl++
 				ok, why := c05ClosureErrRecorded(cl, call, handle)
 				c.Check(R, FnName(f)+"|deferred-close-error-recorded", call.Pos(), ok, why)
 			}
 		}
+		nClose := 0
 		AllInstrs(f, func(in ssa.Instruction) {
 			d, isDefer := in.(*ssa.Defer)
 			if !isDefer {
@@ -2607,10 +2749,57 @@ func c05R4(c *Ctx) {
 				}
 			}
 			for _, call := range CallsTo(g, "(*os.File).Close") {
+				nClose++
 				ok, why := c05ClosureErrRecorded(g, call, handle)
 				c.Check(R, FnName(f)+"|deferred-close-error-recorded", call.Pos(), ok, why)
 			}
 		})
+		// the file a verified copy writes is closed at all: in this function (directly, in a deferred closure or helper), or —
+		// when the file is handed in — by every caller.  Without a Close a late write error (ENOSPC at close on NFS …) is
+		// never seen and the content is published as complete.
+		isClose := func(n string) bool { return strings.HasSuffix(n, ").Close") }
+		hasClose := func(g *ssa.Function) bool {
+			for _, x := range append([]*ssa.Function{g}, Anons(g)...) {
+				if len(Calls(x, isClose)) > 0 {
+					return true
+				}
+				for _, dc := range Calls(x, func(string) bool { return true }) {
+					// a helper that receives the file (possibly as an io.Closer) and closes it: closeAndKeep(fp, &err)
+					if h := StaticCallee(dc); h != nil && inModule(h) && h != g && len(h.Blocks) > 0 && len(Calls(h, isClose)) > 0 {
+						return true
+					}
+				}
+			}
+			return false
+		}
+		for _, cb := range c05CopyCalls(f) {
+			if cb.Dst == nil || !strings.HasSuffix(strip(cb.Dst).Type().String(), "os.File") || CalleeName(cb.Call) != c05CopyBuf {
+				continue // a helper summarised as a verified copy is judged where the copy itself is
+			}
+			closed := nClose > 0 || nCloseCl > 0 || hasClose(f)
+			if !closed {
+				if prm := c05ParamOf(cb.Dst); prm != nil && prm.Parent() == f {
+					nc, all := 0, true
+					for _, g := range c05ModuleFuncs(c.P) {
+						for _, call := range Calls(g, func(string) bool { return true }) {
+							if StaticCallee(call) == f {
+								nc++
+								root := g
+								for root.Parent() != nil {
+									root = root.Parent()
+								}
+								if !hasClose(root) {
+									all = false
+								}
+							}
+						}
+					}
+					closed = nc > 0 && all
+				}
+			}
+			c.Check(R, FnName(f)+"|written-file-is-closed", cb.Call.Pos(), closed,
+				ifelse(closed, "the file the verified copy writes is closed by this function or by every caller", "the file the verified copy writes is never closed: a write error that only surfaces at Close is never observed (and the descriptor leaks)"))
+		}
 	}
 }
 
@@ -2668,6 +2857,12 @@ func c05ClosureErrRecorded(cl *ssa.Function, call ssa.CallInstruction, handle ss
 }
 
 var c05Mutants = []Mutant{
+	{Name: "file-adddir-default-mediatype-inverted", File: "content/file/file.go", Old: "\tif mediaType == \"\" {\n\t\tmediaType = defaultBlobDirMediaType", New: "\tif mediaType != \"\" {\n\t\tmediaType = defaultBlobDirMediaType", Expect: "C05.R3.who-may-publish|(*~/content/file.Store).descriptorFromDir|mediaType|default-only-when-empty"},
+	// mutation-sweep survivors (test-green)
+	{Name: "file-savefile-buffer-put-before-copy", File: "content/file/file.go", Old: "\tbuf := bufPool.Get().(*[]byte)\n\tdefer bufPool.Put(buf)\n\tif err := ioutil.CopyBuffer(fp, content, *buf, expected); err != nil {", New: "\tbuf := bufPool.Get().(*[]byte)\n\tbufPool.Put(buf)\n\tif err := ioutil.CopyBuffer(fp, content, *buf, expected); err != nil {", Expect: "C05.R2.publish-after-verify|(*~/content/file.Store).saveFile|pooled-buffer-released-after-last-use"},
+	{Name: "file-adddir-buffer-put-before-tar", File: "content/file/file.go", Old: "\tbuf := bufPool.Get().(*[]byte)\n\tdefer bufPool.Put(buf)\n\tif err := tarDirectory(", New: "\tbuf := bufPool.Get().(*[]byte)\n\tbufPool.Put(buf)\n\tif err := tarDirectory(", Expect: "C05.R2.publish-after-verify|(*~/content/file.Store).descriptorFromDir|pooled-buffer-released-after-last-use"},
+	{Name: "file-savefile-never-closes-file", File: "content/file/file.go", Old: "\tdefer func() {\n\t\tcloseErr := fp.Close()\n\t\tif err == nil {\n\t\t\terr = closeErr\n\t\t}\n\t}()\n\tpath := fp.Name()\n", New: "\tpath := fp.Name()\n", Expect: "C05.R4.error-flow|(*~/content/file.Store).saveFile|written-file-is-closed"},
+	{Name: "file-addfile-deferred-close-clears-error", File: "content/file/file.go", Old: "\t\tcloseErr := fp.Close()\n\t\tif err == nil {\n\t\t\terr = closeErr\n\t\t}\n\t}()\n\n\tdgst, err := digest.FromReader(fp)", New: "\t\tcloseErr := fp.Close()\n\t\tif err != nil {\n\t\t\terr = closeErr\n\t\t}\n\t}()\n\n\tdgst, err := digest.FromReader(fp)", Expect: "C05.R3.who-may-publish|(*~/content/file.Store).descriptorFromFile|deferred-cleanup-keeps-error"},
 	// keeps the repository's tests green: only the algorithm is checked, the encoded part is not
 	{Name: "oci-blobpath-validates-algorithm-only", File: "content/oci/readonlystorage.go", Old: "\tif err := dgst.Validate(); err != nil {\n\t\treturn \"\", fmt.Errorf(\"cannot calculate blob path from invalid digest %s: %w: %v\",\n\t\t\tdgst.String(), errdef.ErrInvalidDigest, err)\n\t}", New: "\ti := 0\n\tfor i < len(dgst) && dgst[i] != ':' {\n\t\ti++\n\t}\n\tif i == 0 || i >= len(dgst)-1 || !digest.Algorithm(dgst[:i]).Available() {\n\t\treturn \"\", fmt.Errorf(\"cannot calculate blob path from invalid digest %s: %w\",\n\t\t\tdgst.String(), errdef.ErrInvalidDigest)\n\t}", Expect: "C05.R3.who-may-publish|~/content/oci.blobPath|digest-validated-before-path"},
 	// round 4: flat `&&` guards and setter helpers are followed, not trusted
